@@ -774,6 +774,8 @@ def oracle(case: dict, snaps: List[dict], stats: List[str]) -> Optional[Tuple[di
         if k == "hexec" and op.get("cmd", FILE)["op"] == "file" and st == "success" and \
                 all(a["files"] == b["files"] for a, b in zip(after["nodes"], before["nodes"])):
             return ({"kind": "handle-answer-wrong", "op": k}, f"op {i} {op_line(op)} answered success but no command was executed", i)
+        if k == "hdisc" and st == "success" and op["k"] < len(after.get("held", [])) and after["held"][op["k"]][3]:
+            return ({"kind": "handle-active-after-disconnect", "op": k}, f"op {i} {op_line(op)}: the object is still active after its own disconnect()", i)
         for hb, ha in zip(before.get("held", []), after.get("held", [])):
             if ha[3] and not hb[3]:
                 return ({"kind": "handle-reactivated", "op": k}, f"op {i} {op_line(op)}: is_active of a kept connection went back to True", i)
